@@ -197,12 +197,22 @@ func (c *Conn) vHdr(ev string, h header) {
 	VerifSink(VerifEvent{Conn: c.v.id, G: verifGID(), Ev: ev, A: int64(h.opcode), B: flags, D: h.payloadLength, E: int64(h.maskKey)})
 }
 
-// vCtl reports the payload of a ping or pong frame that has been written (at most 125 bytes).
+// vCtl reports the payload of a control frame that has been written (at most 125 bytes): the bytes of a
+// ping or pong, the status code (-1: empty body) and body length of a close frame.
 func (c *Conn) vCtl(ev string, op opcode, p []byte) {
-	if vOff(c.v.id) || op != opPing && op != opPong {
+	if vOff(c.v.id) {
 		return
 	}
-	VerifSink(VerifEvent{Conn: c.v.id, G: verifGID(), Ev: ev, S: string(p), A: int64(op)})
+	switch op {
+	case opPing, opPong:
+		VerifSink(VerifEvent{Conn: c.v.id, G: verifGID(), Ev: ev, S: string(p), A: int64(op)})
+	case opClose:
+		code := int64(-1)
+		if len(p) >= 2 {
+			code = int64(p[0])<<8 | int64(p[1])
+		}
+		VerifSink(VerifEvent{Conn: c.v.id, G: verifGID(), Ev: ev, A: int64(op), B: code, D: int64(len(p))})
+	}
 }
 
 func (m *mu) vName() string {
